@@ -138,6 +138,7 @@ func (e *Engine) resetPath(prefix []Decision) {
 	e.inPool = map[*Value]bool{}
 	e.byteBacking = nil
 	e.clock = 0
+	e.cellArr = nil
 	e.copyCells = nil
 	e.initRan = map[*ssa.Package]bool{}
 	e.panicking = nil
@@ -202,6 +203,21 @@ func (e *Engine) runPath(entry *ssa.Function, prefix []Decision) (end pathEnd) {
 }
 
 func newEngine(prog *ssa.Program, pkg *ssa.Package, cfg *Config) *Engine {
+	e := newEngine0(prog, pkg, cfg)
+	if cfg.UnwindIn != "" {
+		e.unwindIn = map[*ssa.Function]int{}
+		for name, n := range parseParams(cfg.UnwindIn) {
+			for fn := range ssautil.AllFunctions(prog) {
+				if fn.Pkg == pkg && strings.Contains(fn.String(), name) {
+					e.unwindIn[fn] = int(n)
+				}
+			}
+		}
+	}
+	return e
+}
+
+func newEngine0(prog *ssa.Program, pkg *ssa.Package, cfg *Config) *Engine {
 	return &Engine{prog: prog, pkg: pkg, solver: NewSolver(cfg.Solver), fuel: cfg.Fuel, unwind: cfg.Unwind, mergeOn: cfg.Merge,
 		covered: map[string]int{}, funcsSeen: map[string]int{}, stdSeen: map[string]int{}, modelsSeen: map[string]int{}, found: map[string]*Violation{},
 		accesses: map[string]map[access]int{}, initStoreCache: map[*ssa.Package]map[*ssa.Global]bool{}, sizes: types.SizesFor("gc", "amd64"), params: cfg.Params,
@@ -223,6 +239,7 @@ type Config struct {
 	Solver   string
 	Harness  string
 	Repo     string
+	UnwindIn string
 }
 
 func parseParams(s string) map[string]int64 {
@@ -338,6 +355,7 @@ func main() {
 	flag.IntVar(&cfg.Samples, "samples", 6, "path witnesses to record")
 	flag.StringVar(&cfg.Solver, "solver", os.Getenv("SOLVER"), "solver command (default z3 -in)")
 	jsonOut := flag.String("json", "", "write result JSON here")
+	flag.StringVar(&cfg.UnwindIn, "unwind-in", "", "name=N,...: tighter unwinding bound for functions whose name contains name")
 	flag.StringVar(&cfg.Harness, "harness", "/verif/harness", "")
 	flag.StringVar(&cfg.Repo, "repo", "/repo", "")
 	vectorsFile := flag.String("vectors", "", "file of vectors: concrete batch mode, prints observations")
